@@ -355,11 +355,12 @@ def check_C19(chk):
             bcases.append({"id": 500000 + i, "plans": [([40] * brng.choice([3, 66, 100, 150]), True) for _ in range(m)], "late": [False] * m,
                            "mode": "after", "threads": 1, "level": "ipc"})
         # ... and several members that become ready in the OPPOSITE order of their ids, each with 20..40 results in one batch
-        for i in range(6 if thorough else 3):
-            m = brng.randint(2, 5)
-            bcases.append({"id": 500100 + i, "plans": [([40] * brng.randint(20, 40), True) for _ in range(m)], "late": [False] * m,
-                           "mode": "after", "threads": 1, "level": "ipc", "rev": True})
-        blines = ["id=%d plan=%s mode=after threads=1 eintr=0 level=ipc%s" % (c["id"], PS.plan_str(c["plans"]), " rev=1" if c.get("rev") else "") for c in bcases]
+        # (members added first, then filled by one thread starting with the member added last)
+        for i in range(12 if thorough else 6):
+            m = brng.randint(3, 6)
+            bcases.append({"id": 500100 + i, "plans": [([40] * brng.randint(25, 40), True) for _ in range(m)], "late": [False] * m,
+                           "mode": "before", "threads": 1, "level": "ipc", "rev": True})
+        blines = ["id=%d plan=%s mode=%s threads=1 eintr=0 level=ipc%s" % (c["id"], PS.plan_str(c["plans"]), c["mode"], " rev=1" if c.get("rev") else "") for c in bcases]
         for fl in ("default", "memfd", "inprocess"):
             brecs, _, brc, berr = C.run_harness(bins[fl], "rset", blines, shim=False, timeout=300)
             bby = {r["id"]: r for r in brecs if r.get("kind") == "rset"}
